@@ -9,7 +9,9 @@ import (
 	"math/bits"
 	"os"
 	"path/filepath"
+	"runtime/debug"
 	"sort"
+	"sync"
 	"unsafe"
 
 	cbytes "github.com/acquirecloud/golibs/container/bytes"
@@ -23,28 +25,49 @@ import (
 //	a        ArrangeBlock once (and stamp the block unless Case.NoStamp)
 //	fill N   N>=0: ArrangeBlock N times; N<0: as many times as leaves -N-1 blocks free (-1 = fill up)
 //	fa N     FreeBlock of the allocated index at position N (mod length, negative from the end) of the allocation list
+//	         (no allocation list is kept for more than compactAbove blocks: there fa is fi)
+//	fi N     FreeBlock of the first allocated index at or (cyclically) after N mod Count
 //	drain N  N>=0: free N allocated blocks (front of the allocation list); N<0: all but -N-1
 //	ff N     FreeBlock of the first free in-range index at or (cyclically) after N mod Count -> not-exist error
 //	fo N     FreeBlock(Count+N), N>=0 -> invalid
 //	fn N     FreeBlock(-1-N), N>=0 -> invalid
 //	b N      Block(N mod Count): exact size, stable offset; write a new stamp
 //	bo N     Block out of range (N>=0: Count+N, N<0: N) -> error
-//	r        reopen: copy the bytes (in memory) or close and map the file again (mmap), continue on the new allocator
+//	r N      reopen and continue on the new allocator.
+//	         N=0   the same bytes: a copy (in memory), or close and map the file again with its actual size (-1)
+//	         N=-1  the same, but the file is mapped with its size given explicitly
+//	         N>0   the same bytes followed by zero bytes, size class N-1 of biggerSize: a larger buffer that starts with a
+//	               copy (in memory), or NewMMFile with the larger size, which extends the file: the geometry keeps its
+//	               segments and may get new, empty ones. A size that the constructor has to refuse (fit) is only probed.
+//	         N<=-2 probe of a prefix of the bytes, size class -N-2 of smallerSize (mmap: the file is mapped with a
+//	               smaller size than it has): less than a segment, or not a multiple under fit -> refused; else the
+//	               leading whole segments with their state. Afterwards the mmap backend continues as N=0.
+//	g N      Grow() of the Bytes() of the live allocator to size class N of biggerSize; the case goes on with the SAME
+//	         allocator (nothing the harness holds survives the call: the base and all block slices are fetched again)
 type Op struct {
 	K string `json:"k"`
 	N int    `json:"n,omitempty"`
 }
 
 // Case is a geometry plus an op list. Buffer size = Segs*segment + Over (rounded up to 4096 for mmap).
+// Pre: before the allocator is opened, the headers of the first Pre segments (all if negative) are set to the
+// bytes the allocator itself leaves in the header of a segment it has filled up (taken from a one-segment
+// allocator of the same block size): the state "these segments are full" without millions of calls.
 type Case struct {
 	BS      int    `json:"bs"`
 	Segs    int    `json:"segs"`
 	Over    int    `json:"over"`
 	Fit     bool   `json:"fit"`
-	Backend string `json:"backend"` // "inmem" (default) or "mmap"
+	Backend string `json:"backend"` // "inmem" (default), "mmap" or "sparse"
 	NoStamp bool   `json:"nostamp,omitempty"`
+	Pre     int    `json:"pre,omitempty"`
 	Ops     []Op   `json:"ops"`
 }
+
+// compactAbove: with more blocks than this the model keeps no allocation list and no per-block arrays other than
+// two bit sets; block geometry and the FreeBlock side of the reopen probe work on samples (the ArrangeBlock side
+// stays exact).
+const compactAbove = 1 << 22
 
 // Info is what the classifier needs.
 type Info struct {
@@ -60,10 +83,24 @@ type Info struct {
 	MultiSeg      bool
 	Oversize      bool
 	Snapshots     int // non-destructive reopen comparisons
+
+	Prefilled       bool // headers preset to "full"
+	Huge            bool // more than 2^24 blocks
+	LastFreeHuge    bool // ArrangeBlock succeeded with exactly one free block among more than 2^24
+	Grown           bool // Grow of the buffer of the live allocator
+	GrowSeg         bool // ... that made room for another segment
+	ArrangeAfterGrw bool // ArrangeBlock succeeded on an allocator whose buffer was grown since it was opened
+	ReopenLarger    bool // continuing reopen on the bytes followed by zero bytes, with >= 1 allocated block
+	ReopenMoreSegs  bool // ... that added a segment
+	ReopenExplicit  bool // mmap: mapped again with the explicit size
+	ReopenPrefix    bool // probe of a prefix holding >= 1 whole segment
+	ReopenRefused   bool // a reopen/probe size that the constructor had to refuse
 }
 
 // NonTrivial is the rule of C17.
-func (i Info) NonTrivial() bool { return i.ReallocAcross || i.ReopenAlloc || i.Rejected || i.Exhausted }
+func (i Info) NonTrivial() bool {
+	return i.ReallocAcross || i.ReopenAlloc || i.Rejected || i.Exhausted || i.ArrangeAfterGrw || i.ReopenLarger || i.LastFreeHuge
+}
 
 // Classes for the histogram.
 func (i Info) Classes() []string {
@@ -84,6 +121,18 @@ func (i Info) Classes() []string {
 	add(i.Mmap, "backend_mmap")
 	add(i.MultiSeg, "segments_ge_2")
 	add(i.Oversize, "oversized_buffer")
+	add(i.Prefilled, "headers_prefilled_full")
+	add(i.Huge, "blocks_gt_2^24")
+	add(i.LastFreeHuge, "arrange_last_free_block_of_gt_2^24")
+	add(i.Grown, "grow_live_buffer")
+	add(i.GrowSeg, "grow_live_buffer_by_a_segment")
+	add(i.ArrangeAfterGrw, "arrange_after_grow_same_allocator")
+	add(i.ReopenLarger, "reopen_larger_with_allocated")
+	add(i.ReopenLarger && i.Mmap, "reopen_larger_mmap_file_extended")
+	add(i.ReopenMoreSegs, "reopen_larger_adds_segment")
+	add(i.ReopenExplicit, "reopen_mmap_explicit_size")
+	add(i.ReopenPrefix, "reopen_prefix_probe")
+	add(i.ReopenRefused, "reopen_size_refused")
 	return c
 }
 
@@ -102,6 +151,10 @@ func (c Case) Hash() uint64 {
 	}
 	if c.NoStamp {
 		mix(2)
+	}
+	if c.Pre != 0 {
+		mix(3)
+		mix(uint64(int64(c.Pre)))
 	}
 	mix(uint64(len(c.Backend)))
 	for _, o := range c.Ops {
@@ -144,6 +197,13 @@ func Alphabet() []Op {
 		{K: "fo", N: 0}, {K: "fn", N: 0}, {K: "b", N: 0}, {K: "bo", N: 0}, {K: "r"}}
 }
 
+// GrowAlphabet is the alphabet of the second exhaustive part: histories in which the buffer of the live allocator
+// grows (by a byte, to the next segment boundary) and in which the bytes are reopened followed by zero bytes or cut.
+func GrowAlphabet() []Op {
+	return []Op{{K: "a"}, {K: "fill", N: 8}, {K: "fa", N: 0}, {K: "fa", N: -1}, {K: "ff", N: 0},
+		{K: "g", N: 0}, {K: "g", N: 1}, {K: "r"}, {K: "r", N: 2}, {K: "r", N: -3}}
+}
+
 func isInvalid(err error) bool   { return err != nil && gerrors.Is(err, gerrors.ErrInvalid) }
 func isNotExist(err error) bool  { return err != nil && gerrors.Is(err, gerrors.ErrNotExist) }
 func isExhausted(err error) bool { return err != nil && gerrors.Is(err, gerrors.ErrExhausted) }
@@ -152,6 +212,8 @@ func isExhausted(err error) bool { return err != nil && gerrors.Is(err, gerrors.
 func Run(c Case) (info Info, v *vstat.Violation) {
 	e := &env{c: c, info: &info}
 	defer e.cleanup()
+	// a write through a slice of a mapping that is gone is a panic of this goroutine (reported), not the end of the process
+	defer debug.SetPanicOnFault(debug.SetPanicOnFault(true))
 	return info, vstat.Guard("blocks:panic", func() *vstat.Violation { return e.run() })
 }
 
@@ -159,28 +221,38 @@ type env struct {
 	c       Case
 	info    *Info
 	bs      int
+	per     int // user blocks per segment
 	segSize int64
-	size    int64
-	segs    int
+	size    int64 // current size of the buffer
+	segs    int   // geometry of the live allocator
 	count   int
+	segs0   int // segments at the start (growth is bounded relative to it)
+	mmap    bool
+	compact bool // more than compactAbove blocks
+	sampled bool // sparse or compact: block geometry on a sample and on every touched block
 	b       *cbytes.Blocks
 	base    []byte
 	mm      *files.MMFile
 	sp      *sparseBuf // backend "sparse": only touched blocks exist
-	byOffs  map[int64]int
 	dir     string
 	fn      string
 
-	alloc     []bool
+	// model; the slices cover the geometry of the BUFFER, which after a Grow may have more segments than the live allocator
+	alloc     bitset
 	nalloc    int
-	alist     []int
-	apos      []int32
-	gen       []uint32 // stamp generation of an allocated index, 0 = not stamped
-	offs      []int64  // byte offset of block i in the buffer
+	alist     []int    // not compact
+	apos      []int32  // not compact
+	gen       []uint32 // stamp generation of an allocated index, 0 = not stamped (not compact)
+	genM      map[int]uint32
+	offs      []int64 // byte offset of block i in the buffer (not sampled)
+	offM      map[int]int64
+	byOffs    map[int64]int
 	segAlloc  []int
-	freedEver []bool
+	freedEver bitset
+	recent    []int // recently touched indexes (sample for the reopen probe when compact)
 	seq       uint32
 	sawExh    bool
+	grownLive bool // the buffer was grown since the live allocator was opened
 }
 
 func (e *env) cleanup() {
@@ -202,6 +274,112 @@ func TmpRoot() string {
 	return ""
 }
 
+// geoOf is the geometry a fresh allocator must have on a buffer of the given size (ok=false: must be refused).
+func (e *env) geoOf(size int64) (segs int, ok bool) {
+	segs = int(size / e.segSize)
+	return segs, segs >= 1 && !(e.c.Fit && size%e.segSize != 0)
+}
+
+// bitset is a set of block indexes.
+type bitset []uint64
+
+func (b bitset) get(i int) bool { return b[i>>6]>>(uint(i)&63)&1 != 0 }
+
+func (b bitset) set(i int, v bool) {
+	if v {
+		b[i>>6] |= 1 << (uint(i) & 63)
+	} else {
+		b[i>>6] &^= 1 << (uint(i) & 63)
+	}
+}
+
+// grown makes room for n indexes.
+func (b bitset) grown(n int) bitset { return grown(b, (n+63)>>6) }
+
+// setFirst puts the indexes [0,n) into the set.
+func (b bitset) setFirst(n int) {
+	for w := 0; w < n>>6; w++ {
+		b[w] = ^uint64(0)
+	}
+	for i := n &^ 63; i < n; i++ {
+		b.set(i, true)
+	}
+}
+
+// next is the first index in [from,to) whose membership is want, -1 if there is none.
+func (b bitset) next(from, to int, want bool) int {
+	skip := uint64(0)
+	if !want {
+		skip = ^uint64(0)
+	}
+	for i := from; i < to; {
+		if i&63 == 0 && i+64 <= to && b[i>>6] == skip {
+			i += 64
+			continue
+		}
+		if b.get(i) == want {
+			return i
+		}
+		i++
+	}
+	return -1
+}
+
+func grown[T any](s []T, n int) []T {
+	if len(s) >= n {
+		return s
+	}
+	return append(s, make([]T, n-len(s))...)
+}
+
+// ensure makes the model cover segs segments.
+func (e *env) ensure(segs int) {
+	n := segs * e.per
+	e.alloc = e.alloc.grown(n)
+	e.freedEver = e.freedEver.grown(n)
+	e.segAlloc = grown(e.segAlloc, segs)
+	if !e.compact {
+		e.apos = grown(e.apos, n)
+		e.gen = grown(e.gen, n)
+	}
+}
+
+// setGeometry: the live allocator has segs segments from now on.
+func (e *env) setGeometry(segs int) {
+	e.segs = segs
+	e.count = segs * e.per
+	e.ensure(segs)
+	e.info.MultiSeg = e.info.MultiSeg || segs >= 2
+	e.info.Huge = e.info.Huge || e.count > 1<<24
+}
+
+var refHdr sync.Map // block size -> header bytes of a full segment
+
+// fullHeader returns the bytes that the allocator leaves in the header of a segment after it handed out all bs*8
+// blocks of it.
+func fullHeader(bs int) ([]byte, *vstat.Violation) {
+	if h, ok := refHdr.Load(bs); ok {
+		return h.([]byte), nil
+	}
+	buf := newSparse(SegSize(bs), bs)
+	b, err := cbytes.NewBlocks(bs, buf, true)
+	if err != nil || b == nil {
+		return nil, vstat.V("blocks:ctor-rejects-valid", "NewBlocks(bs=%d, one exact segment) failed: %v", bs, err)
+	}
+	for i := 0; i < bs*8; i++ {
+		if _, err := b.ArrangeBlock(); err != nil {
+			return nil, vstat.V("blocks:arrange-error", "one segment of bs=%d: ArrangeBlock call %d of %d failed with %v", bs, i, bs*8, err)
+		}
+	}
+	h, err := buf.Buffer(0, bs)
+	if err != nil || len(h) != bs {
+		panic(fmt.Sprintf("environment: header of the reference segment: len=%d err=%v", len(h), err))
+	}
+	cp := append([]byte(nil), h...)
+	refHdr.Store(bs, cp)
+	return cp, nil
+}
+
 func (e *env) run() *vstat.Violation {
 	c := e.c
 	e.bs = c.BS
@@ -211,29 +389,32 @@ func (e *env) run() *vstat.Violation {
 		e.info.Rejected = true
 		return v
 	}
+	e.per = c.BS * 8
 	e.segSize = SegSize(c.BS)
 	e.size = int64(max(c.Segs, 0))*e.segSize + int64(max(c.Over, 0))
-	mmap := c.Backend == "mmap"
-	if mmap {
+	e.mmap = c.Backend == "mmap"
+	if e.mmap {
 		e.size = (e.size + 4095) / 4096 * 4096
 		if e.size == 0 {
 			e.size = 4096
 		}
 	}
 	sparse := c.Backend == "sparse"
-	if sparse {
+	segs := int(e.size / e.segSize)
+	e.segs0 = segs
+	e.compact = segs*e.per > compactAbove
+	e.sampled = sparse || e.compact
+	if e.sampled {
 		e.c.NoStamp = true // blocks are only touched by explicit b ops
-	} else if e.size > 600<<20 {
+	}
+	if !sparse && e.size > 600<<20 {
 		panic(fmt.Sprintf("case asks for a %d byte buffer: generator error", e.size))
 	}
-	e.segs = int(e.size / e.segSize)
-	e.count = e.segs * c.BS * 8
-	e.info.Mmap = mmap
-	e.info.MultiSeg = e.segs >= 2
-	e.info.Oversize = e.segs >= 1 && e.size%e.segSize != 0
+	e.info.Mmap = e.mmap
+	e.info.Oversize = segs >= 1 && e.size%e.segSize != 0
 
 	var buf cbytes.Buffer
-	if mmap {
+	if e.mmap {
 		d, err := os.MkdirTemp(TmpRoot(), "c17mm")
 		if err != nil {
 			panic("cannot create a scratch directory: " + err.Error())
@@ -252,9 +433,28 @@ func (e *env) run() *vstat.Violation {
 	} else {
 		buf = cbytes.NewInMemBytes(int(e.size))
 	}
-	geo := fmt.Sprintf("bs=%d size=%d (segment=%d, %d segment(s) + %d) fit=%v %s", c.BS, e.size, e.segSize, e.segs, e.size%e.segSize, c.Fit, backendName(c))
+	geo := fmt.Sprintf("bs=%d size=%d (segment=%d, %d segment(s) + %d) fit=%v %s", c.BS, e.size, e.segSize, segs, e.size%e.segSize, c.Fit, backendName(c))
+	_, wantOK := e.geoOf(e.size)
+	pre := c.Pre
+	if pre < 0 || pre > segs {
+		pre = segs
+	}
+	if pre > 0 && wantOK {
+		ref, v := fullHeader(c.BS)
+		if v != nil {
+			return v
+		}
+		for s := 0; s < pre; s++ {
+			h, err := buf.Buffer(int64(s)*e.segSize, c.BS)
+			if err != nil || len(h) != c.BS {
+				panic(fmt.Sprintf("environment: Buffer(%d,%d) returned len=%d err=%v", int64(s)*e.segSize, c.BS, len(h), err))
+			}
+			copy(h, ref)
+		}
+		e.info.Prefilled = true
+		geo += fmt.Sprintf(" headers of %d segment(s) preset to full", pre)
+	}
 	b, err := cbytes.NewBlocks(c.BS, buf, c.Fit)
-	wantOK := e.segs >= 1 && !(c.Fit && e.size%e.segSize != 0)
 	if !wantOK {
 		e.info.Rejected = true
 		if err == nil || b != nil {
@@ -269,18 +469,28 @@ func (e *env) run() *vstat.Violation {
 		return vstat.V("blocks:ctor-rejects-valid", "NewBlocks(%s) failed: (%v, %v)", geo, b, err)
 	}
 	e.b = b
-	e.alloc = make([]bool, e.count)
-	e.apos = make([]int32, e.count)
-	e.gen = make([]uint32, e.count)
-	e.freedEver = make([]bool, e.count)
-	e.segAlloc = make([]int, e.segs)
+	e.setGeometry(segs)
+	if pre > 0 {
+		n := pre * e.per
+		e.alloc.setFirst(n)
+		e.nalloc = n
+		for s := 0; s < pre; s++ {
+			e.segAlloc[s] = e.per
+		}
+		if !e.compact {
+			e.alist = make([]int, n)
+			for i := range e.alist {
+				e.alist[i] = i
+				e.apos[i] = int32(i)
+			}
+		}
+	}
 	if v := e.attach("NewBlocks(" + geo + ")"); v != nil {
 		return v
 	}
 	if v := e.counters("NewBlocks(" + geo + ")"); v != nil {
 		return v
 	}
-	small := e.size <= 64<<10
 	for i, op := range c.Ops {
 		where := fmt.Sprintf("op #%d %s(%d) [%s]", i, op.K, op.N, geo)
 		if v := e.step(op, where); v != nil {
@@ -289,7 +499,7 @@ func (e *env) run() *vstat.Violation {
 		if v := e.counters("after " + where); v != nil {
 			return v
 		}
-		if small || i%16 == 15 {
+		if e.size <= 64<<10 || i%16 == 15 {
 			if v := e.stamps("after " + where); v != nil {
 				return v
 			}
@@ -310,14 +520,14 @@ func (e *env) run() *vstat.Violation {
 		if v := e.snapshot(where, 3); v != nil {
 			return v
 		}
-	} else if !mmap {
+	} else if !e.mmap {
 		if v := e.snapshot(where, 1+len(c.Ops)%2); v != nil {
 			return v
 		}
 	}
-	if mmap {
+	if e.mmap {
 		// the state must also survive close + map again from disk
-		if v := e.reopen(where); v != nil {
+		if v := e.reopen(where, 0); v != nil {
 			return v
 		}
 		if v := e.counters(where + " after the final reopen from disk"); v != nil {
@@ -352,37 +562,34 @@ func (e *env) attach(where string) *vstat.Violation {
 	if b.Count() != e.count {
 		return vstat.V("blocks:count", "%s: Count()=%d want segments*bs*8=%d", where, b.Count(), e.count)
 	}
-	if e.sp != nil {
-		return e.attachSparse(where)
+	if e.sp == nil {
+		base, err := b.Bytes().Buffer(0, int(e.size))
+		if err != nil || int64(len(base)) != e.size {
+			panic(fmt.Sprintf("environment: Bytes().Buffer(0,%d) returned len=%d err=%v", e.size, len(base), err))
+		}
+		e.base = base
 	}
-	base, err := b.Bytes().Buffer(0, int(e.size))
-	if err != nil || int64(len(base)) != e.size {
-		panic(fmt.Sprintf("environment: Bytes().Buffer(0,%d) returned len=%d err=%v", e.size, len(base), err))
+	if e.sampled {
+		return e.attachSampled(where)
 	}
-	e.base = base
-	offs, v := blockGeometry(b, base, e.bs, e.segs, e.count, where)
+	offs, v := blockGeometry(b, e.base, e.bs, e.segs, e.count, where)
 	if v != nil {
 		return v
 	}
-	if e.offs != nil {
-		for i := range offs {
-			if offs[i] != e.offs[i] {
-				return vstat.V("blocks:offset-changed-on-reopen", "%s: block %d is at offset %d, before the reopen it was at %d", where, i, offs[i], e.offs[i])
-			}
+	for i := 0; i < len(offs) && i < len(e.offs); i++ {
+		if offs[i] != e.offs[i] {
+			return vstat.V("blocks:offset-changed-on-reopen", "%s: block %d is at offset %d, earlier (before the reopen or the Grow) it was at %d", where, i, offs[i], e.offs[i])
 		}
 	}
 	e.offs = offs
 	return nil
 }
 
-// attachSparse examines the geometry of a sample of blocks only (Block() materialises the block); blocks touched
-// later by a b op are examined then. Offsets come from the sparse buffer's own bookkeeping.
-func (e *env) attachSparse(where string) *vstat.Violation {
-	if e.offs == nil {
-		e.offs = make([]int64, e.count)
-		for i := range e.offs {
-			e.offs[i] = -1
-		}
+// attachSampled examines the geometry of a sample of blocks only (on a sparse buffer Block() materialises the
+// block); blocks touched later by a b op are examined then.
+func (e *env) attachSampled(where string) *vstat.Violation {
+	if e.offM == nil {
+		e.offM = map[int]int64{}
 		e.byOffs = map[int64]int{}
 	}
 	for _, i := range sampleIndexes(e.bs, e.segs, e.count) {
@@ -393,41 +600,71 @@ func (e *env) attachSparse(where string) *vstat.Violation {
 		if len(blk) != e.bs {
 			return vstat.V("blocks:block-size", "%s: Block(%d) has %d bytes, want the block size %d", where, i, len(blk), e.bs)
 		}
-		if v := e.sparseBlockAt(i, blk, where); v != nil {
+		if v := e.blockAt(i, blk, where); v != nil {
 			return v
 		}
 	}
 	return nil
 }
 
-// sparseBlockAt checks the position of one block of a sparse buffer against the headers and all blocks seen so far.
-func (e *env) sparseBlockAt(i int, blk []byte, where string) *vstat.Violation {
-	o := e.sp.offsetOf(blk)
+// blockAt checks the position of one block against the headers and all blocks seen so far (sampled mode).
+func (e *env) blockAt(i int, blk []byte, where string) *vstat.Violation {
+	var o int64
+	if e.sp != nil {
+		o = e.sp.offsetOf(blk) // offsets come from the sparse buffer's own bookkeeping
+	} else {
+		o = ptrDiff(blk, e.base)
+	}
 	bs := int64(e.bs)
 	if o < 0 || o+bs > e.size {
-		return vstat.V("blocks:block-outside-buffer", "%s: Block(%d) is not a range handed out by the buffer inside [0,%d) (offset %d)", where, i, e.size, o)
+		return vstat.V("blocks:block-outside-buffer", "%s: Block(%d) is not a range inside the buffer [0,%d) (offset %d)", where, i, e.size, o)
 	}
-	if s := o / e.segSize; s < int64(e.segs) && o < s*e.segSize+bs {
+	s := o / e.segSize
+	if s < int64(e.segs) && o < s*e.segSize+bs {
 		return vstat.V("blocks:block-overlaps-header", "%s: Block(%d) covers [%d,%d) which overlaps the header [%d,%d) of segment %d", where, i, o, o+bs, s*e.segSize, s*e.segSize+bs, s)
 	}
-	if e.offs[i] >= 0 && e.offs[i] != o {
-		return vstat.V("blocks:block-moved", "%s: Block(%d) is now at buffer offset %d, earlier at %d", where, i, o, e.offs[i])
+	if s+1 < int64(e.segs) && o+bs > (s+1)*e.segSize {
+		return vstat.V("blocks:block-overlaps-header", "%s: Block(%d) covers [%d,%d) which overlaps the header of segment %d at %d", where, i, o, o+bs, s+1, (s+1)*e.segSize)
 	}
-	// ranges of the sparse buffer are block-aligned, so two blocks overlap iff they have the same offset
-	if j, ok := e.byOffs[o]; ok && j != i {
-		return vstat.V("blocks:blocks-overlap", "%s: Block(%d) and Block(%d) are both at [%d,%d)", where, i, j, o, o+bs)
+	if old, ok := e.offM[i]; ok && old != o {
+		return vstat.V("blocks:block-moved", "%s: Block(%d) is now at buffer offset %d, earlier at %d", where, i, o, old)
 	}
-	e.offs[i] = o
+	if e.sp != nil {
+		// ranges of the sparse buffer are block-aligned, so two blocks overlap iff they have the same offset
+		if j, ok := e.byOffs[o]; ok && j != i {
+			return vstat.V("blocks:blocks-overlap", "%s: Block(%d) and Block(%d) are both at [%d,%d)", where, i, j, o, o+bs)
+		}
+	} else {
+		for d := -bs + 1; d < bs; d++ {
+			if j, ok := e.byOffs[o+d]; ok && j != i {
+				return vstat.V("blocks:blocks-overlap", "%s: Block(%d)=[%d,%d) and Block(%d)=[%d,%d) overlap", where, i, o, o+bs, j, o+d, o+d+bs)
+			}
+		}
+	}
+	e.offM[i] = o
 	e.byOffs[o] = i
 	return nil
 }
 
 // blockBytes is the current content of block idx (its offset must be known).
 func (e *env) blockBytes(idx int) []byte {
-	if e.sp != nil {
-		return e.sp.chunks[e.offs[idx]]
+	var o int64
+	if e.sampled {
+		o = e.offM[idx]
+	} else {
+		o = e.offs[idx]
 	}
-	return e.base[e.offs[idx] : e.offs[idx]+int64(e.bs)]
+	if e.sp != nil {
+		return e.sp.chunks[o]
+	}
+	return e.base[o : o+int64(e.bs)]
+}
+
+func (e *env) offsetOf(idx int) int64 {
+	if e.sampled {
+		return e.offM[idx]
+	}
+	return e.offs[idx]
 }
 
 // blockGeometry checks that every in-range block is exactly bs bytes inside the buffer, that the blocks are
@@ -498,43 +735,86 @@ func (e *env) writeStamp(blk []byte, idx int, gen uint32) {
 	}
 }
 
+func (e *env) getGen(idx int) uint32 {
+	if e.compact {
+		return e.genM[idx]
+	}
+	return e.gen[idx]
+}
+
+func (e *env) setGen(idx int, g uint32) {
+	if !e.compact {
+		e.gen[idx] = g
+	} else if g == 0 {
+		delete(e.genM, idx)
+	} else {
+		if e.genM == nil {
+			e.genM = map[int]uint32{}
+		}
+		e.genM[idx] = g
+	}
+}
+
 // stamps verifies that every allocated, stamped block still holds what the case wrote into it.
 func (e *env) stamps(where string) *vstat.Violation {
-	for _, idx := range e.alist {
-		g := e.gen[idx]
+	list := e.alist
+	if e.compact {
+		list = make([]int, 0, len(e.genM))
+		for idx := range e.genM {
+			list = append(list, idx)
+		}
+		sort.Ints(list)
+	}
+	for _, idx := range list {
+		g := e.getGen(idx)
 		if g == 0 {
 			continue
 		}
 		blk := e.blockBytes(idx)
 		for j := range blk {
 			if blk[j] != stampByte(idx, g, j) {
-				return vstat.V("blocks:user-data-overwritten", "%s: byte %d of allocated block %d (buffer offset %d) is %#x, the case wrote %#x: something else wrote into a user block", where, j, idx, e.offs[idx]+int64(j), blk[j], stampByte(idx, g, j))
+				return vstat.V("blocks:user-data-overwritten", "%s: byte %d of allocated block %d (buffer offset %d) is %#x, the case wrote %#x: something else wrote into a user block", where, j, idx, e.offsetOf(idx)+int64(j), blk[j], stampByte(idx, g, j))
 			}
 		}
 	}
 	return nil
 }
 
+func (e *env) touch(idx int) {
+	if !e.compact {
+		return
+	}
+	if len(e.recent) >= 4096 {
+		e.recent = append(e.recent[:0], e.recent[2048:]...)
+	}
+	e.recent = append(e.recent, idx)
+}
+
 func (e *env) markAlloc(idx int) {
-	e.alloc[idx] = true
-	e.apos[idx] = int32(len(e.alist))
-	e.alist = append(e.alist, idx)
+	e.alloc.set(idx, true)
+	if !e.compact {
+		e.apos[idx] = int32(len(e.alist))
+		e.alist = append(e.alist, idx)
+	}
 	e.nalloc++
-	e.segAlloc[idx/(e.bs*8)]++
-	e.gen[idx] = 0
+	e.segAlloc[idx/e.per]++
+	e.setGen(idx, 0)
+	e.touch(idx)
 }
 
 func (e *env) markFree(idx int) {
-	p := int(e.apos[idx])
-	last := e.alist[len(e.alist)-1]
-	e.alist[p] = last
-	e.apos[last] = int32(p)
-	e.alist = e.alist[:len(e.alist)-1]
-	e.alloc[idx] = false
+	if !e.compact {
+		p := int(e.apos[idx])
+		last := e.alist[len(e.alist)-1]
+		e.alist[p] = last
+		e.apos[last] = int32(p)
+		e.alist = e.alist[:len(e.alist)-1]
+	}
+	e.alloc.set(idx, false)
 	e.nalloc--
-	e.segAlloc[idx/(e.bs*8)]--
-	e.gen[idx] = 0
-	e.freedEver[idx] = true
+	e.segAlloc[idx/e.per]--
+	e.setGen(idx, 0)
+	e.freedEver.set(idx, true)
 }
 
 // arrange is one ArrangeBlock call checked against the model.
@@ -561,18 +841,23 @@ func (e *env) arrange(where0 string, call int) *vstat.Violation {
 	if idx < 0 || idx >= e.count {
 		return vstat.V("blocks:arrange-out-of-range", "%s: ArrangeBlock returned %d, outside [0,%d)", where, idx, e.count)
 	}
-	if e.alloc[idx] {
+	if e.alloc.get(idx) {
 		return vstat.V("blocks:double-allocation", "%s: ArrangeBlock returned %d which is still allocated", where, idx)
 	}
-	if e.freedEver[idx] {
-		for s, n := range e.segAlloc {
-			if n > 0 && s != idx/(e.bs*8) {
-				e.info.ReallocAcross = true
-			}
+	if e.freedEver.get(idx) {
+		seg := idx / e.per
+		if e.nalloc > e.segAlloc[seg] {
+			e.info.ReallocAcross = true
 		}
 	}
 	if e.sawExh {
 		e.info.Refill = true
+	}
+	if e.grownLive {
+		e.info.ArrangeAfterGrw = true
+	}
+	if e.count > 1<<24 && e.count-e.nalloc == 1 {
+		e.info.LastFreeHuge = true
 	}
 	e.markAlloc(idx)
 	if !e.c.NoStamp {
@@ -603,8 +888,8 @@ func (e *env) stamp(idx int, where string) *vstat.Violation {
 	if len(blk) != e.bs {
 		return vstat.V("blocks:block-size", "%s: Block(%d) has %d bytes, want the block size %d", where, idx, len(blk), e.bs)
 	}
-	if e.sp != nil {
-		if v := e.sparseBlockAt(idx, blk, where); v != nil {
+	if e.sampled {
+		if v := e.blockAt(idx, blk, where); v != nil {
 			return v
 		}
 	} else if o := ptrDiff(blk, e.base); o != e.offs[idx] {
@@ -612,8 +897,9 @@ func (e *env) stamp(idx int, where string) *vstat.Violation {
 	}
 	e.seq++
 	e.writeStamp(blk, idx, e.seq)
-	if e.alloc[idx] {
-		e.gen[idx] = e.seq
+	if e.alloc.get(idx) {
+		e.setGen(idx, e.seq)
+		e.touch(idx)
 	}
 	return nil
 }
@@ -634,7 +920,7 @@ func (e *env) free(idx int, where0 string, call int) *vstat.Violation {
 		if !isInvalid(err) {
 			return vstat.V("blocks:free-out-of-range-wrong-error", "%s: FreeBlock(%d) failed with %v which is not of class ErrInvalid", where, idx, err)
 		}
-	case e.alloc[idx]:
+	case e.alloc.get(idx):
 		if err != nil {
 			return vstat.V("blocks:free-rejected", "%s: FreeBlock(%d) failed with %v although the block is allocated", where, idx, err)
 		}
@@ -649,6 +935,21 @@ func (e *env) free(idx int, where0 string, call int) *vstat.Violation {
 		}
 	}
 	return nil
+}
+
+// firstFrom is the first index at or cyclically after n (mod Count) whose allocation state is want; -1 if none.
+func (e *env) firstFrom(n int, want bool) int {
+	if (want && e.nalloc == 0) || (!want && e.nalloc == e.count) {
+		return -1
+	}
+	i := n % e.count
+	if i < 0 {
+		i += e.count
+	}
+	if j := e.alloc.next(i, e.count, want); j >= 0 {
+		return j
+	}
+	return e.alloc.next(0, i, want)
 }
 
 func (e *env) step(op Op, where string) *vstat.Violation {
@@ -666,6 +967,12 @@ func (e *env) step(op Op, where string) *vstat.Violation {
 			}
 		}
 	case "fa":
+		if e.compact {
+			if i := e.firstFrom(op.N, true); i >= 0 {
+				return e.free(i, where, -1)
+			}
+			return nil
+		}
 		if len(e.alist) == 0 {
 			return nil
 		}
@@ -675,18 +982,19 @@ func (e *env) step(op Op, where string) *vstat.Violation {
 		}
 		return e.free(e.alist[p], where, -1)
 	case "fi":
-		if e.nalloc == 0 {
+		if i := e.firstFrom(op.N, true); i >= 0 {
+			return e.free(i, where, -1)
+		}
+	case "drain":
+		if e.compact {
+			// no allocation list: up to 4096 blocks, found from spread-out positions
+			for k := 0; k < min(max(op.N, 0), 4096) && e.nalloc > 0; k++ {
+				if v := e.free(e.firstFrom(k*7919, true), where, k); v != nil {
+					return v
+				}
+			}
 			return nil
 		}
-		i := op.N % e.count
-		if i < 0 {
-			i += e.count
-		}
-		for !e.alloc[i] {
-			i = (i + 1) % e.count
-		}
-		return e.free(i, where, -1)
-	case "drain":
 		n := op.N
 		if n < 0 {
 			n = max(0, len(e.alist)+n+1)
@@ -702,17 +1010,9 @@ func (e *env) step(op Op, where string) *vstat.Violation {
 			}
 		}
 	case "ff":
-		if e.nalloc == e.count {
-			return nil
+		if i := e.firstFrom(op.N, false); i >= 0 {
+			return e.free(i, where, -1)
 		}
-		i := op.N % e.count
-		if i < 0 {
-			i += e.count
-		}
-		for e.alloc[i] {
-			i = (i + 1) % e.count
-		}
-		return e.free(i, where, -1)
 	case "fo":
 		return e.free(e.count+max(op.N, 0), where, -1)
 	case "fn":
@@ -733,82 +1033,349 @@ func (e *env) step(op Op, where string) *vstat.Violation {
 			return vstat.V("blocks:block-out-of-range-accepted", "%s: Block(%d) returned %d bytes and no error, the valid indexes are [0,%d)", where, i, len(blk), e.count)
 		}
 	case "r":
-		if e.nalloc > 0 {
+		if e.nalloc > 0 && (op.N > -2 || e.mmap) {
 			e.info.ReopenAlloc = true
 		}
-		return e.reopen(where)
+		return e.reopen(where, op.N)
+	case "g":
+		return e.grow(op.N, where)
 	default:
 		panic("bad op " + op.K)
 	}
 	return nil
 }
 
-// reopen continues the case on a second allocator: on a copy of the bytes, or on the file mapped again.
-func (e *env) reopen(where string) *vstat.Violation {
-	var buf cbytes.Buffer
-	if e.mm != nil {
-		if err := e.b.Close(); err != nil {
-			return vstat.V("blocks:close-error", "%s: Close of the mapped file failed: %v", where, err)
+func (e *env) unit() int64 {
+	if e.mmap {
+		return 4096 // files.BlockSize: a mapping size must be a multiple of it
+	}
+	return 1
+}
+
+func nonneg(n int) int {
+	if n < 0 {
+		n = -(n + 1)
+	}
+	return n
+}
+
+// biggerSize is a buffer size above the current one: class n%4 = 0: one unit (byte, or page for mmap) more; 1: the
+// next segment boundary; 2: a block past it; 3: one or two whole segments more. Rounded up to the unit.
+func (e *env) biggerSize(n int) int64 {
+	n = nonneg(n)
+	u := e.unit()
+	next := (e.size/e.segSize + 1) * e.segSize
+	var s int64
+	switch n % 4 {
+	case 0:
+		s = e.size + u
+	case 1:
+		s = next
+	case 2:
+		s = next + int64(e.bs)
+	default:
+		s = e.size + int64(1+(n/4)%2)*e.segSize
+	}
+	return (s + u - 1) / u * u
+}
+
+// smallerSize is a size below the current one: class n%3 = 0: one unit less; 1: without the last whole segment;
+// 2: a unit less than one segment. Rounded down to the unit; <= 0: there is none.
+func (e *env) smallerSize(n int) int64 {
+	n = nonneg(n)
+	u := e.unit()
+	var s int64
+	switch n % 3 {
+	case 0:
+		s = e.size - u
+	case 1:
+		s = (e.size/e.segSize - 1) * e.segSize
+	default:
+		s = e.segSize - u
+	}
+	s = s / u * u
+	if s >= e.size {
+		return 0
+	}
+	return s
+}
+
+// tooBig bounds the growth of a case: three segments more than it started with, 64 MiB of real memory.
+func (e *env) tooBig(s int64) bool {
+	return s/e.segSize > int64(e.segs0+3) || (e.sp == nil && s > 64<<20)
+}
+
+// refused: NewBlocks on a buffer of this size must fail with ErrInvalid.
+func (e *env) refused(buf cbytes.Buffer, size int64, where string) *vstat.Violation {
+	e.info.ReopenRefused = true
+	b, err := cbytes.NewBlocks(e.bs, buf, e.c.Fit)
+	if err == nil || b != nil {
+		return vstat.V("blocks:ctor-bad-size-accepted", "%s: NewBlocks(bs=%d, %d bytes, fit=%v) returned (%v, %v): a buffer smaller than a segment (%d), or not a multiple of it under fit, must be refused", where, e.bs, size, e.c.Fit, b, err, e.segSize)
+	}
+	if !isInvalid(err) {
+		return vstat.V("blocks:ctor-wrong-error", "%s: NewBlocks(bs=%d, %d bytes, fit=%v): error %v is not of class ErrInvalid", where, e.bs, size, e.c.Fit, err)
+	}
+	return nil
+}
+
+// copyBuf is a fresh in-memory (or sparse) buffer of the given size that starts with the current bytes.
+func (e *env) copyBuf(size int64) cbytes.Buffer {
+	if e.sp != nil {
+		return e.sp.cloneSized(size)
+	}
+	cp := cbytes.NewInMemBytes(int(size))
+	dst, _ := cp.Buffer(0, int(size))
+	copy(dst, e.base)
+	return cp
+}
+
+// grow enlarges the buffer of the live allocator through Blocks.Bytes().Grow and goes on with the same allocator.
+func (e *env) grow(n int, where string) *vstat.Violation {
+	s := e.biggerSize(n)
+	u := e.unit()
+	if _, ok := e.geoOf(s); !ok {
+		// fit: mostly keep the buffer a multiple of the segment (a file cannot shrink again: always)
+		if e.mmap || nonneg(n)%8 < 6 {
+			s = (e.size/e.segSize + 1) * e.segSize
 		}
-		e.mm = nil
-		mm, err := files.NewMMFile(e.fn, -1)
+		if s%u != 0 {
+			return nil
+		}
+	}
+	if e.tooBig(s) {
+		return nil
+	}
+	buf := e.b.Bytes()
+	if err := buf.Grow(s); err != nil {
+		panic(fmt.Sprintf("environment: Bytes().Grow(%d) of a %d byte buffer failed: %v", s, e.size, err))
+	}
+	if got := buf.Size(); got != s {
+		panic(fmt.Sprintf("environment: Bytes().Size()=%d after Grow(%d)", got, s))
+	}
+	where += fmt.Sprintf(" (after Bytes().Grow from %d to %d bytes)", e.size, s)
+	e.size = s
+	e.info.Grown = true
+	e.grownLive = true
+	bsegs, ok := e.geoOf(s)
+	e.ensure(bsegs)
+	if bsegs > e.segs {
+		e.info.GrowSeg = true
+	}
+	// the live allocator may keep the geometry it was opened with or adopt the one of the larger buffer
+	if got := e.b.Count(); got != e.count {
+		if !ok || got != bsegs*e.per {
+			return vstat.V("blocks:count", "%s: Count()=%d, neither the %d of the geometry it was opened with nor that of a %d byte buffer", where, got, e.count, s)
+		}
+		e.setGeometry(bsegs)
+	}
+	return e.attach(where)
+}
+
+// reopen continues the case on a second allocator (see Op "r").
+func (e *env) reopen(where string, how int) *vstat.Violation {
+	closed := false
+	if how <= -2 {
+		var v *vstat.Violation
+		if closed, v = e.prefixProbe(where, -how-2); v != nil {
+			return v
+		}
+		if !closed {
+			return nil // in memory a pure probe: the live allocator goes on
+		}
+		how = 0
+	}
+	newSize := e.size
+	if how > 0 {
+		s := e.biggerSize(how - 1)
+		_, ok := e.geoOf(s)
+		switch {
+		case e.tooBig(s):
+		case !ok && e.mmap: // extending the file cannot be undone: not to a size that is bound to be refused
+		case !ok:
+			if v := e.refused(e.copyBuf(s), s, where+" (bytes followed by zero bytes)"); v != nil {
+				return v
+			}
+		default:
+			newSize = s
+		}
+	}
+	if _, ok := e.geoOf(newSize); !ok {
+		// a Grow of the live buffer has broken the fit: a fresh allocator must be refused, the live one goes on
+		return e.refused(&fakeBuf{size: newSize}, newSize, where)
+	}
+	if newSize > e.size && e.nalloc > 0 {
+		e.info.ReopenLarger = true
+		if newSize/e.segSize > e.size/e.segSize {
+			e.info.ReopenMoreSegs = true
+		}
+	}
+	var buf cbytes.Buffer
+	if e.mmap {
+		if !closed {
+			if err := e.b.Close(); err != nil {
+				return vstat.V("blocks:close-error", "%s: Close of the mapped file failed: %v", where, err)
+			}
+			e.mm = nil
+		}
+		msize := int64(-1)
+		if newSize > e.size {
+			msize = newSize
+		} else if how == -1 {
+			msize = e.size
+			e.info.ReopenExplicit = true
+		}
+		mm, err := files.NewMMFile(e.fn, msize)
 		if err != nil {
-			panic("environment: cannot map the scratch file again: " + err.Error())
+			panic(fmt.Sprintf("environment: cannot map the scratch file again (size %d): %v", msize, err))
 		}
 		e.mm = mm
-		if mm.Size() != e.size {
-			return vstat.V("blocks:file-size-changed", "%s: the file mapped again has %d bytes, it was created with %d", where, mm.Size(), e.size)
+		if mm.Size() != newSize {
+			return vstat.V("blocks:file-size-changed", "%s: the file of %d bytes mapped again with size %d has %d bytes, want %d", where, e.size, msize, mm.Size(), newSize)
 		}
 		buf = mm
 	} else if e.sp != nil {
-		e.sp = e.sp.clone()
-		e.byOffs = map[int64]int{}
+		e.sp = e.sp.cloneSized(newSize)
 		buf = e.sp
 	} else {
-		cp := cbytes.NewInMemBytes(int(e.size))
-		dst, _ := cp.Buffer(0, int(e.size))
-		copy(dst, e.base)
-		buf = cp
+		buf = e.copyBuf(newSize)
 	}
+	if newSize != e.size {
+		where += fmt.Sprintf(" (the %d bytes followed by zero bytes to %d)", e.size, newSize)
+	}
+	e.size = newSize
 	b, err := cbytes.NewBlocks(e.bs, buf, e.c.Fit)
 	if err != nil || b == nil {
 		return vstat.V("blocks:reopen-rejected", "%s: NewBlocks on the same bytes failed: %v", where, err)
 	}
 	e.b = b
+	e.grownLive = false
+	segs, _ := e.geoOf(e.size)
+	e.setGeometry(segs)
 	return e.attach(where + " (reopened)")
+}
+
+// prefixProbe opens an allocator on a prefix of the bytes. In memory (and sparse) it is the full reopen probe on a
+// copy; for mmap the live allocator is closed (closed=true), the file is mapped with the smaller size and the
+// allocator on it is only looked at (it writes through to the file).
+func (e *env) prefixProbe(where string, class int) (closed bool, v *vstat.Violation) {
+	s := e.smallerSize(class)
+	if s <= 0 {
+		return false, nil
+	}
+	psegs, ok := e.geoOf(s)
+	pcount := psegs * e.per
+	pn := 0
+	for i := 0; i < psegs; i++ {
+		pn += e.segAlloc[i]
+	}
+	where += fmt.Sprintf(" (the first %d of the %d bytes)", s, e.size)
+	if ok {
+		e.info.ReopenPrefix = true
+	}
+	if !e.mmap {
+		if !ok {
+			return false, e.refused(e.copyBuf(s), s, where)
+		}
+		var sample []int
+		if e.compact || (e.sampled && e.alist != nil) {
+			sample = e.allocSample(pcount)
+		}
+		return false, snapshotProbe(func() cbytes.Buffer { return e.copyBuf(s) }, e.bs, e.c.Fit, pcount, e.alloc.get, pn, where, 3, sample, e.compact)
+	}
+	if err := e.b.Close(); err != nil {
+		return true, vstat.V("blocks:close-error", "%s: Close of the mapped file failed: %v", where, err)
+	}
+	e.mm = nil
+	mm, err := files.NewMMFile(e.fn, s)
+	if err != nil {
+		panic(fmt.Sprintf("environment: cannot map the scratch file again (size %d): %v", s, err))
+	}
+	e.mm = mm
+	if mm.Size() != s {
+		return true, vstat.V("blocks:file-size-changed", "%s: the mapping has %d bytes", where, mm.Size())
+	}
+	if !ok {
+		v = e.refused(mm, s, where)
+	} else if b, err := cbytes.NewBlocks(e.bs, mm, e.c.Fit); err != nil || b == nil {
+		v = vstat.V("blocks:reopen-rejected", "%s: NewBlocks failed: %v", where, err)
+	} else if b.Count() != pcount {
+		v = vstat.V("blocks:reopen-count", "%s: Count()=%d want %d whole segment(s) = %d", where, b.Count(), psegs, pcount)
+	} else if b.Available() != pcount-pn {
+		v = vstat.V("blocks:reopen-available", "%s: Available()=%d, but %d of the %d blocks of these segment(s) are allocated", where, b.Available(), pn, pcount)
+	}
+	mm.Close()
+	e.mm = nil
+	return true, v
+}
+
+// allocSample: allocated indexes below count for the FreeBlock side of the reopen probe of a compact case.
+func (e *env) allocSample(count int) []int {
+	out := []int{}
+	if !e.compact {
+		for _, i := range e.alist {
+			if i < count {
+				out = append(out, i)
+			}
+		}
+		return out
+	}
+	seen := map[int]bool{}
+	add := func(i int) {
+		if i >= 0 && i < count && e.alloc.get(i) && !seen[i] {
+			seen[i] = true
+			out = append(out, i)
+		}
+	}
+	for _, i := range e.recent {
+		add(i)
+	}
+	for _, i := range sampleIndexes(e.bs, count/e.per, count) {
+		add(i - 1)
+		add(i)
+		add(i + 1)
+	}
+	return out
 }
 
 // snapshot is the non-destructive reopen comparison: a fresh allocator on a copy of the bytes must report the
 // same Count and Available, and the allocated set recovered from it by probing must equal the model.
 // mode bit 1: FreeBlock(i) succeeds <=> i allocated; mode bit 2: ArrangeBlock until exhausted yields the complement.
+// After a Grow the geometry of the copy is that of the larger buffer: the blocks of the added segments are free.
 func (e *env) snapshot(where string, mode int) *vstat.Violation {
 	e.info.Snapshots++
-	if e.sp != nil {
-		return snapshotProbe(func() cbytes.Buffer { return e.sp.clone() }, e.bs, e.c.Fit, e.count, e.alloc, e.nalloc, where, mode, e.alist)
+	bsegs, ok := e.geoOf(e.size)
+	if !ok {
+		return e.refused(&fakeBuf{size: e.size}, e.size, where+": an allocator on a copy of the bytes")
 	}
-	return snapshotCheck(e.base, e.bs, e.c.Fit, e.count, e.alloc, e.nalloc, where, mode)
+	bcount := bsegs * e.per
+	var sample []int
+	if e.compact || (e.sampled && e.alist != nil) {
+		sample = e.allocSample(bcount)
+	}
+	return snapshotProbe(func() cbytes.Buffer { return e.copyBuf(e.size) }, e.bs, e.c.Fit, bcount, e.alloc.get, e.nalloc, where, mode, sample, e.compact)
 }
 
-func snapshotCheck(base []byte, bs int, fit bool, count int, alloc []bool, nalloc int, where string, mode int) *vstat.Violation {
+func snapshotCheck(base []byte, bs int, fit bool, count int, allocated []bool, nalloc int, where string, mode int) *vstat.Violation {
+	alloc := func(i int) bool { return allocated[i] }
 	return snapshotProbe(func() cbytes.Buffer {
 		cp := cbytes.NewInMemBytes(len(base))
 		dst, _ := cp.Buffer(0, len(base))
 		copy(dst, base)
 		return cp
-	}, bs, fit, count, alloc, nalloc, where, mode, nil)
+	}, bs, fit, count, alloc, nalloc, where, mode, nil, false)
 }
 
-// snapshotProbe: mk returns a fresh copy of the bytes. With alist != nil (large sparse geometries) the FreeBlock
-// probe visits every allocated index and a sample of the free ones instead of all indexes (the ArrangeBlock
-// probe determines the complement exactly in any case).
-func snapshotProbe(mk func() cbytes.Buffer, bs int, fit bool, count int, alloc []bool, nalloc int, where string, mode int, alist []int) *vstat.Violation {
+// snapshotProbe: mk returns a fresh copy of the bytes. With sample != nil (large sparse geometries, compact cases)
+// the FreeBlock probe visits these allocated indexes and a sample of the free ones instead of all indexes; the
+// ArrangeBlock probe determines the complement exactly in any case (compact: unless more than 2^18 blocks are free).
+func snapshotProbe(mk func() cbytes.Buffer, bs int, fit bool, count int, alloc func(int) bool, nalloc int, where string, mode int, sample []int, compact bool) *vstat.Violation {
 	open := func() (*cbytes.Blocks, *vstat.Violation) {
 		r, err := cbytes.NewBlocks(bs, mk(), fit)
 		if err != nil || r == nil {
 			return nil, vstat.V("blocks:reopen-rejected", "%s: NewBlocks on a copy of the bytes failed: %v", where, err)
 		}
 		if r.Count() != count {
-			return nil, vstat.V("blocks:reopen-count", "%s: an allocator opened on a copy of the bytes has Count()=%d, the live one %d", where, r.Count(), count)
+			return nil, vstat.V("blocks:reopen-count", "%s: an allocator opened on a copy of the bytes has Count()=%d, want %d", where, r.Count(), count)
 		}
 		if r.Available() != count-nalloc {
 			return nil, vstat.V("blocks:reopen-available", "%s: an allocator opened on a copy of the bytes has Available()=%d, want Count-allocated=%d-%d=%d", where, r.Available(), count, nalloc, count-nalloc)
@@ -822,44 +1389,53 @@ func snapshotProbe(mk func() cbytes.Buffer, bs int, fit bool, count int, alloc [
 		}
 		probe := func(i int) *vstat.Violation {
 			err := r.FreeBlock(i)
-			if (err == nil) != alloc[i] {
-				return vstat.V("blocks:reopen-state", "%s: on a copy of the bytes FreeBlock(%d) returned %v, but allocated(%d)=%v in the model: the bytes do not carry the allocation state", where, i, err, i, alloc[i])
+			if (err == nil) != alloc(i) {
+				return vstat.V("blocks:reopen-state", "%s: on a copy of the bytes FreeBlock(%d) returned %v, but allocated(%d)=%v in the model: the bytes do not carry the allocation state", where, i, err, i, alloc(i))
 			}
 			return nil
 		}
-		if alist == nil {
+		if sample == nil {
 			for i := 0; i < count; i++ {
 				if v := probe(i); v != nil {
 					return v
 				}
 			}
+			if r.Available() != count {
+				return vstat.V("blocks:reopen-available", "%s: on a copy of the bytes, after freeing every allocated block Available()=%d want %d", where, r.Available(), count)
+			}
 		} else {
-			// free indexes first (they must be refused while everything else is still allocated), then all allocated
+			// free indexes first (they must be refused while everything else is still allocated), then the allocated ones
 			for _, i := range sampleIndexes(bs, count/(bs*8), count) {
 				for d := -1; d <= 1; d++ {
-					if j := i + d; j >= 0 && j < count && !alloc[j] {
+					if j := i + d; j >= 0 && j < count && !alloc(j) {
 						if v := probe(j); v != nil {
 							return v
 						}
 					}
 				}
 			}
-			for _, i := range alist {
+			for _, i := range sample {
 				if v := probe(i); v != nil {
 					return v
 				}
 			}
-		}
-		if r.Available() != count {
-			return vstat.V("blocks:reopen-available", "%s: on a copy of the bytes, after freeing every allocated block Available()=%d want %d", where, r.Available(), count)
+			if want := count - nalloc + len(sample); r.Available() != want {
+				return vstat.V("blocks:reopen-available", "%s: on a copy of the bytes, after freeing %d allocated blocks Available()=%d want %d", where, len(sample), r.Available(), want)
+			}
 		}
 	}
-	if mode&2 != 0 {
+	if mode&2 != 0 && !(compact && count-nalloc > 1<<18) {
 		r, v := open()
 		if v != nil {
 			return v
 		}
-		seen := make([]bool, count)
+		var seen []bool
+		var seenM map[int]bool
+		if compact {
+			seenM = map[int]bool{}
+		} else {
+			seen = make([]bool, count)
+		}
 		n := 0
 		for {
 			idx, err := r.ArrangeBlock()
@@ -872,13 +1448,17 @@ func snapshotProbe(mk func() cbytes.Buffer, bs int, fit bool, count int, alloc [
 			if idx < 0 || idx >= count {
 				return vstat.V("blocks:reopen-state", "%s: on a copy of the bytes ArrangeBlock returned %d, outside [0,%d)", where, idx, count)
 			}
-			if alloc[idx] {
+			if alloc(idx) {
 				return vstat.V("blocks:reopen-state", "%s: on a copy of the bytes ArrangeBlock returned %d, which is allocated in the model: the bytes do not carry the allocation state", where, idx)
 			}
-			if seen[idx] {
+			if (compact && seenM[idx]) || (!compact && seen[idx]) {
 				return vstat.V("blocks:reopen-state", "%s: on a copy of the bytes ArrangeBlock returned %d twice", where, idx)
 			}
-			seen[idx] = true
+			if compact {
+				seenM[idx] = true
+			} else {
+				seen[idx] = true
+			}
 			n++
 		}
 		if n != count-nalloc {
